@@ -49,10 +49,16 @@ def main():
             rc, o = sh("%s/bin/check %s --tier quick" % (ROOT, cid), cwd=ROOT, env=env)
             keys = [l.strip()[4:].split(" ")[0] for l in o.splitlines() if l.strip().startswith("key=")]
             caught = rc == 1
-            missed += 0 if caught else 1
+            known_miss = None
+            mp = os.path.join(os.path.dirname(patch), "meta.json")
+            if not caught and os.path.exists(mp):
+                known_miss = json.load(open(mp)).get("not_detectable_reason")
+            missed += 0 if (caught or known_miss) else 1
             report["mutants"][name] = {"property": cid, "applies": True, "caught": caught, "rc": rc, "keys": keys[:4],
                                        "wall_s": round(time.time() - t0, 1)}
-            print("%-40s %s %s %s" % (name, cid, "caught" if caught else "MISSED rc=%d" % rc, keys[:2]))
+            if known_miss:
+                report["mutants"][name]["outside_the_simulated_worlds"] = known_miss
+            print("%-40s %s %s %s" % (name, cid, "caught" if caught else ("NOT-DETECTABLE (listed) rc=%d" % rc if known_miss else "MISSED rc=%d" % rc), keys[:2]))
         finally:
             sh("git -C /repo worktree remove --force %s" % wt)
             shutil.rmtree(wt, ignore_errors=True)
